@@ -30,6 +30,9 @@ pub fn components_stream() -> Value {
 }
 
 pub fn all_property_ids() -> Vec<&'static str> {
+    #[cfg(servlin_verif)]
+    return vec!["C19"];
+    #[cfg(not(servlin_verif))]
     vec!["C01", "C03", "C04", "C05", "C06", "C07", "C08", "C09", "C10", "C11", "C12", "C13", "C18"]
 }
 
@@ -48,6 +51,8 @@ pub fn property_spec(id: &str) -> Option<PropertySpec> {
         "C12" => Some(crate::scen::c12::spec()),
         "C13" => Some(crate::scen::c13::spec()),
         "C18" => Some(crate::scen::c18::spec()),
+        #[cfg(servlin_verif)]
+        "C19" => Some(crate::scen::c19::spec()),
         _ => None,
     }
 }
